@@ -85,6 +85,7 @@ func (d *refHdr) Next() expect {
 		return expect{Kind: xEnd}
 	}
 	unspec := ""
+	nfields := 0
 	var cl, ct string
 	haveCL, haveCT := false, false
 	for {
@@ -115,8 +116,15 @@ func (d *refHdr) Next() expect {
 			unspec = "header line of more than 1000 bytes"
 		}
 		if line == "" {
+			if !haveCL && !haveCT && nfields == 0 {
+				// a blank line where a header block should begin: an empty header
+				// (an error), or a stray line break to skip (as HTTP servers do)?
+				d.lost = true
+				return expect{Kind: xUnspec, Why: "blank line before any header field"}
+			}
 			break
 		}
+		nfields++
 		c := strings.IndexByte(line, ':')
 		if c < 0 {
 			d.lost = true
@@ -203,6 +211,12 @@ func (d *refHdr) Next() expect {
 		d.lost = true // after an error the position is unknown; after a record the caller goes on in tail mode too
 		return expect{Kind: xRecordOpt, Rec: rec, Why: "Content-Length with leading zeros or more than 18 digits"}
 	}
+	if mismatch && d.mime == "" {
+		// a framing made without a type sends none and expects none: whether a
+		// type that is present "matches" is open
+		d.lost = true
+		return expect{Kind: xUnspec, Why: "Content-Type present although the framing has no expected type"}
+	}
 	if mismatch {
 		if strings.EqualFold(ct, d.mime) {
 			d.lost = true
@@ -256,10 +270,24 @@ func (d *refJSON) Next() expect {
 			d.lost = true
 			return expect{Kind: xUnspec, Why: "JSON value with invalid UTF-8 or surrogate escapes"}
 		}
+		isNum := rec[0] == '-' || (rec[0] >= '0' && rec[0] <= '9')
+		if isNum && end < len(d.s) && d.s[end] >= '0' && d.s[end] <= '9' {
+			// "007": a tokeniser that takes this for three numbers and one that
+			// rejects it as not being JSON are both within the documentation
+			d.lost = true
+			return expect{Kind: xUnspec, Why: "a number directly followed by a digit"}
+		}
+		if end == len(d.s) && rec[0] != '{' && rec[0] != '[' && rec[0] != '"' {
+			// a number or literal that runs into the end of the stream: complete,
+			// or cut off? An error is as good as the value
+			d.lost = true
+			return expect{Kind: xRecordOpt, Rec: rec, Why: "a scalar ended only by the end of the stream"}
+		}
 		return expect{Kind: xRecord, Rec: rec}
 	case jsTruncated:
+		part := d.s[d.pos:]
 		d.pos = len(d.s)
-		return expect{Kind: xError, Why: "stream ends inside a JSON value"}
+		return expect{Kind: xError, Partial: part, Why: "stream ends inside a JSON value"}
 	}
 	d.lost = true
 	return expect{Kind: xError, Why: "not a JSON value"}
